@@ -46,6 +46,9 @@ type Cfg struct {
 	Typed   bool   `json:"typed"`
 	Default bool   `json:"default"`
 	Indexes int    `json:"indexes"` // resbadger models only
+	// Map: resbadger models are served through a Map callback that wraps the value
+	// ({"wrapped": v}); Value() must still give the stored value.
+	Map bool `json:"map,omitempty"`
 }
 
 // Step is one history step.
@@ -55,6 +58,8 @@ type Step struct {
 	Vals map[string]string `json:"vals,omitempty"` // key -> JSON text or "~delete"
 	V    string            `json:"v,omitempty"`    // JSON text (add / create)
 	Idx  int               `json:"idx,omitempty"`
+	// Around: the callback also calls Value() on the same resource instance before and after the event.
+	Around bool `json:"around,omitempty"`
 }
 
 // Case is a history.
@@ -150,6 +155,9 @@ func (f *fixture) open() error {
 				is.Indexes = append(is.Indexes, resbadger.Index{Name: "idxb", Key: key("b")})
 			}
 			m = m.WithIndexSet(is)
+		}
+		if f.cfg.Map {
+			m = m.WithMap(func(v interface{}) (interface{}, error) { return map[string]interface{}{"wrapped": v}, nil })
 		}
 		mopt, copt = m, c
 	}
@@ -276,6 +284,40 @@ func run(c Case) (msg string, nontrivial bool) {
 		}
 		return def(rid)
 	}
+	// servedWant is what a get must answer: the fold, passed through the Map callback when
+	// one is configured and the value is a stored one (the default is served as it is)
+	servedWant := func(rid string) (string, bool) {
+		v, ok := effective(rid)
+		if _, stored := model[rid]; ok && stored && c.Cfg.Map && strings.HasPrefix(rid, "svc.m.") {
+			return `{"wrapped":` + v + `}`, true
+		}
+		return v, ok
+	}
+	// valueMatches compares a Value() result with the fold
+	valueMatches := func(where string, rid string, value interface{}, valueErr error) string {
+		eff, effOK := effective(rid)
+		if !effOK {
+			if valueErr == nil {
+				return fmt.Sprintf("%s: Value() of a missing resource returned %v", where, value)
+			}
+			return ""
+		}
+		if valueErr != nil {
+			return fmt.Sprintf("%s: Value() failed: %v (fold %s)", where, valueErr, eff)
+		}
+		if strings.HasPrefix(rid, "svc.m.") && c.Cfg.Typed {
+			var t T
+			_ = json.Unmarshal([]byte(eff), &t)
+			if !reflect.DeepEqual(value, t) {
+				return fmt.Sprintf("%s: Value()=%#v, the fold decoded into the configured type is %#v", where, value, t)
+			}
+			return ""
+		}
+		if !jsonEq(canon(value), eff) {
+			return fmt.Sprintf("%s: Value()=%s, the fold is %s", where, canon(value), eff)
+		}
+		return ""
+	}
 	for i, st := range c.Steps {
 		where := fmt.Sprintf("step %d %+v", i, st)
 		switch st.K {
@@ -291,7 +333,7 @@ func run(c Case) (msg string, nontrivial bool) {
 			if err != nil {
 				return "VERIF-INCONCLUSIVE: " + err.Error(), nontrivial
 			}
-			want, wok := effective(st.RID)
+			want, wok := servedWant(st.RID)
 			if ok != wok || (ok && !jsonEq(got, want)) {
 				return fmt.Sprintf("%s: get returns (%s, found=%v), the fold of the applied events is (%s, found=%v)", where, got, ok, want, wok), nontrivial
 			}
@@ -304,10 +346,24 @@ func run(c Case) (msg string, nontrivial bool) {
 		var panicked interface{}
 		var value interface{}
 		var valueErr error
+		var afterValue interface{}
+		var afterErr error
+		afterTaken := false
 		done := make(chan struct{})
 		err := f.s.With(st.RID, func(r res.Resource) {
 			defer close(done)
 			defer func() { panicked = recover() }()
+			if st.Around {
+				// the same resource instance is asked for its value before and after the event
+				_, _ = r.Value()
+				defer func() {
+					if v := recover(); v != nil {
+						panic(v)
+					}
+					afterValue, afterErr = r.Value()
+					afterTaken = true
+				}()
+			}
 			switch st.K {
 			case "change":
 				m := map[string]interface{}{}
@@ -377,30 +433,10 @@ func run(c Case) (msg string, nontrivial bool) {
 		}
 		switch st.K {
 		case "value":
-			if !isModel && c.Cfg.Typed {
-				// collections are untyped in this harness
+			if m := valueMatches(where, st.RID, value, valueErr); m != "" {
+				return m, nontrivial
 			}
-			if !effOK {
-				if valueErr == nil {
-					return fmt.Sprintf("%s: Value() of a missing resource returned %v", where, value), nontrivial
-				}
-				continue
-			}
-			if valueErr != nil {
-				return fmt.Sprintf("%s: Value() failed: %v (fold %s)", where, valueErr, eff), nontrivial
-			}
-			want := eff
-			if isModel && c.Cfg.Typed {
-				var t T
-				_ = json.Unmarshal([]byte(eff), &t)
-				if !reflect.DeepEqual(value, t) {
-					return fmt.Sprintf("%s: Value()=%#v, the fold decoded into the configured type is %#v", where, value, t), nontrivial
-				}
-				continue
-			}
-			if !jsonEq(canon(value), want) {
-				return fmt.Sprintf("%s: Value()=%s, the fold is %s", where, canon(value), want), nontrivial
-			}
+			continue
 		case "change":
 			if !isModel {
 				if m := reject("change on a collection"); m != "" {
@@ -567,12 +603,17 @@ func run(c Case) (msg string, nontrivial bool) {
 				return fmt.Sprintf("%s: delete listeners got %s, the previous stored value is %s", where, canon(data), cur), nontrivial
 			}
 		}
+		if afterTaken {
+			if m := valueMatches(where+" (Value() on the same resource instance right after the event)", st.RID, afterValue, afterErr); m != "" {
+				return m, nontrivial
+			}
+		}
 		// after every step: the served value equals the fold
 		got, ok, err := f.get(st.RID)
 		if err != nil {
 			return "VERIF-INCONCLUSIVE: " + err.Error(), nontrivial
 		}
-		want, wok := effective(st.RID)
+		want, wok := servedWant(st.RID)
 		if ok != wok || (ok && !jsonEq(got, want)) {
 			return fmt.Sprintf("%s: afterwards get returns (%s, found=%v), the fold is (%s, found=%v)", where, got, ok, want, wok), nontrivial
 		}
@@ -595,7 +636,7 @@ func run(c Case) (msg string, nontrivial bool) {
 		if err != nil {
 			return "VERIF-INCONCLUSIVE: " + err.Error(), nontrivial
 		}
-		want, wok := effective(rid)
+		want, wok := servedWant(rid)
 		if ok != wok || (ok && !jsonEq(got, want)) {
 			return fmt.Sprintf("after reopening the database %s reads (%s, found=%v), the fold is (%s, found=%v)", rid, got, ok, want, wok), nontrivial
 		}
@@ -608,6 +649,7 @@ func genCase() *rapid.Generator[Case] {
 		c := Case{Cfg: Cfg{Pkg: rapid.SampledFrom([]string{"middleware", "resbadger"}).Draw(t, "pkg"), Typed: rapid.Bool().Draw(t, "typed"), Default: rapid.IntRange(0, 2).Draw(t, "default") == 0}}
 		if c.Cfg.Pkg == "resbadger" {
 			c.Cfg.Indexes = rapid.IntRange(0, 2).Draw(t, "indexes")
+			c.Cfg.Map = rapid.IntRange(0, 3).Draw(t, "map") == 0
 		}
 		n := rapid.IntRange(1, 25).Draw(t, "nsteps")
 		strs := []string{`"a"`, `"b"`, `"dflt"`, `""`, `"x y"`}
@@ -666,6 +708,9 @@ func genCase() *rapid.Generator[Case] {
 				} else {
 					st.V = rapid.SampledFrom([]string{`[]`, `["x"]`, `[1,2,"a"]`}).Draw(t, "coll")
 				}
+			}
+			if st.K != "value" && st.K != "get" && st.K != "reopen" {
+				st.Around = rapid.IntRange(0, 3).Draw(t, "around") == 0
 			}
 			c.Steps = append(c.Steps, st)
 		}
